@@ -1,5 +1,6 @@
 """C13 — suite discovery finds exactly the declared tests at the declared paths (model M9 `Loader`)."""
 import copy
+import json
 import os
 import re
 import shutil
@@ -10,9 +11,11 @@ import common as C
 from gen import c13_layout as L
 
 PROPERTY = "C13"
-LEAN_MODULES = ["LccModel.Props.C13", "LccModel.Props.C13Scan"]
-PROPS_FILES = ["LccModel/Props/C13.lean", "LccModel/Props/C13Scan.lean"]
-NAMESPACES = {"LccModel/Props/C13.lean": "LccModel.C13", "LccModel/Props/C13Scan.lean": "LccModel.C13Scan"}
+LEAN_MODULES = ["LccModel.Props.C13", "LccModel.Props.C13Scan", "LccModel.Props.C13Params", "LccModel.Props.C13Reload"]
+PROPS_FILES = ["LccModel/Props/C13.lean", "LccModel/Props/C13Scan.lean", "LccModel/Props/C13Params.lean",
+               "LccModel/Props/C13Reload.lean"]
+NAMESPACES = {"LccModel/Props/C13.lean": "LccModel.C13", "LccModel/Props/C13Scan.lean": "LccModel.C13Scan",
+              "LccModel/Props/C13Params.lean": "LccModel.C13Params", "LccModel/Props/C13Reload.lean": "LccModel.C13Reload"}
 DRIVER = "drivers/C13.lean"
 TRUSTED_BASE = [
     "Lean 4.33.0 kernel; axioms of the property theorems ⊆ {propext, Classical.choice, Quot.sound}",
@@ -180,6 +183,10 @@ def x_tests(tests, flags, in_class=False):
             out.append(dict(base, name=name, desc=desc, params=[]))
             continue
         flags.add("parametrized")
+        flags.add("source:" + p.get("style", "dict"))
+        if p.get("style") == "csv":
+            for part in L.header_class(p).split("+"):
+                flags.add("header:" + part)
         for idx, ps in enumerate(p["sets"], 1):
             if p["naming"] is None:
                 n, d = "%s_%d" % (name, idx), "%s #%d" % (desc, idx)
@@ -540,7 +547,14 @@ def _j_test(t):
     j = dict(_j_meta(t), attr=t["attr"], name=t.get("name"), desc=t.get("desc"), rank=t["rank"], vis=_j_vis(t.get("vis"), t["attr"]),
              disabled=t.get("disabled") or False, param=None)
     if t.get("param"):
-        j["param"] = {"sets": t["param"]["sets"], "naming": t["param"]["naming"]}
+        p = t["param"]
+        if p.get("style") == "csv":
+            # the source as WRITTEN: the header text and the rows; the model's `parseHeader` finds the names
+            j["param"] = {"header": L.csv_header(p), "rows": [[v for _, v in s] for s in p["sets"]], "naming": p["naming"]}
+        elif p.get("style") == "csvtuple":
+            j["param"] = {"names": L.csv_keys(p), "rows": [[v for _, v in s] for s in p["sets"]], "naming": p["naming"]}
+        else:
+            j["param"] = {"sets": p["sets"], "naming": p["naming"]}
     return j
 
 
@@ -836,6 +850,34 @@ CORPUS_SHAPES = [
 ]
 
 
+def _csv(keys, rows, pads, naming=None):
+    return {"sets": [[[k, v] for k, v in zip(keys, r)] for r in rows], "naming": naming, "style": "csv", "pads": pads}
+
+
+# string headers of the CSV-like form of @lcc.parametrized, as people write them (fourth seeded round): the parameter names are
+# the trimmed fields.  First the minimised failing input of the seeded change (one test, one field, one trailing blank), then
+# the spellings of the documentation, a column-aligned header, a header padded at both ends, tabs / newline, the other
+# characters str.strip() removes, a format naming scheme that reads the parameters by name, a method of a nested class
+HEADER_SPELLINGS = [
+    {"entry": "dir", "defect": None, "layout": {"name": "suites", "noise": False, "dirs": [], "mods": [
+        _m("params", tests=[_t("padded", param=_csv(["value"], [["foo"]], [["", " "]]))])]}},
+    {"entry": "dir", "defect": None, "layout": {"name": "suites", "noise": False, "dirs": [], "mods": [
+        _m("params", tests=[
+            _t("plain", pos=0, param=_csv(["i", "j"], [[1, 2], [3, 4]], [["", ""], ["", ""]])),
+            _t("spaced", pos=1, param=_csv(["i", "j"], [[1, 2], [3, 4]], [["", ""], [" ", ""]])),
+            _t("aligned", pos=2, param=_csv(["host", "port"], [["localhost", 80], ["example", 443]], [["", "      "], [" ", ""]])),
+            _t("padded", pos=3, param=_csv(["value"], [["foo"]], [[" ", " "]]))])]}},
+    {"entry": "file", "pick": "m", "defect": None, "layout": {"name": "suites", "noise": False, "dirs": [], "mods": [
+        _m("m", tests=[
+            _t("tabs", pos=0, param=_csv(["i", "j"], [[1, 2]], [["\t", "\t"], ["\t", "\n"]])),
+            _t("rare", pos=1, param=_csv(["i", "j", "k"], [[1, 2, 3], [4, 5, 6]], [["\xa0", "\u3000"], ["\x0c", "\x1f"], ["\u2028", "\x85"]])),
+            _t("named", pos=2, param=_csv(["i", "j"], [[1, "a"], [2, "b c"]], [[" ", "  "], ["  ", " "]],
+                                          naming={"name": [{"lit": "n_"}, {"field": "i"}, {"lit": "_"}, {"field": "j"}],
+                                                  "desc": [{"lit": "N "}, {"field": "j"}]}))],
+           classes=[_c("K", [], [_c("N", [_t("meth", param=_csv(["k"], [[7], [12]], [["      ", "\t"]]))], pos=3)], pos=4)])]}},
+]
+
+
 class Load(C.Stream):
     name = "C13.load"
     malformed = False
@@ -844,7 +886,7 @@ class Load(C.Stream):
     quick_seconds = 38
     thorough_seconds = 420
     chunk = 60
-    corpus = [WITNESS_D18, WITNESS_D36] + DROPPINGS + COND_SHAPES + CORPUS_SHAPES
+    corpus = [WITNESS_D18, WITNESS_D36] + DROPPINGS + COND_SHAPES + CORPUS_SHAPES + HEADER_SPELLINGS
 
     def gen(self, rng, i):
         lay = L.gen_layout(rng)
@@ -1042,8 +1084,271 @@ class Malformed(Load):
     thorough_seconds = 260
 
 
+# ---------------------------------------------------------------------------------------------
+# several loads in ONE process (fourth seeded round): load -> edit -> load, two projects reached through the same relative
+# path after a chdir, a module whose first import failed.  Every load must reflect the files as they are at that moment.
+# ---------------------------------------------------------------------------------------------
+
+def _all_mods(d):
+    for m in d["mods"]:
+        yield m
+    for sub in d["dirs"]:
+        yield from _all_mods(sub)
+
+
+def _next_pos(m):
+    return 1 + max([t["pos"] for t in m["tests"]] + [c["pos"] for c in m["classes"]] + [-1])
+
+
+def edit_layout(rng, lay, n):
+    """a later state of the same suites directory: what an editing session between two loads does to it"""
+    new = copy.deepcopy(lay)
+    done = []
+    for _ in range(n):
+        mods = list(_all_mods(new))
+        kind = rng.choice(["add-test", "add-test", "remove-test", "remove-test", "retag", "add-param-set", "add-module", "remove-module",
+                           "unhide", "hide"])
+        m = rng.choice(mods) if mods else None
+        if kind == "add-test" and m is not None:
+            t = L._plain_test("added_%d" % rng.randrange(1000), _next_pos(m))
+            if rng.random() < 0.5:
+                t["tags"] = ["new"]
+            if not any(u["attr"] == t["attr"] for u in m["tests"]):
+                m["tests"].append(t)
+                done.append(kind)
+        elif kind == "remove-test" and m is not None and m["tests"]:
+            m["tests"].remove(rng.choice(m["tests"]))
+            done.append(kind)
+        elif kind == "retag" and m is not None and m["tests"]:
+            t = rng.choice(m["tests"])
+            t["tags"] = list(t.get("tags") or []) + ["edited"]
+            t["desc"] = "Edited %d" % rng.randrange(10 ** 6)
+            done.append(kind)
+        elif kind == "add-param-set" and m is not None:
+            ts = [t for t in m["tests"] if t.get("param") and t["param"]["sets"]]
+            if ts:
+                t = rng.choice(ts)
+                t["param"]["sets"].append([[k, rng.choice([21, 22, "new"])] for k, _ in t["param"]["sets"][0]])
+                done.append(kind)
+        elif kind == "add-module":
+            stem = "added_mod_%d" % rng.randrange(100)
+            if not any(x["stem"] == stem for x in new["mods"]):
+                new["mods"].append({"stem": stem, "info": None, "broken": None, "classes": [], "tests": [L._plain_test("t_new", 0)]})
+                done.append(kind)
+        elif kind == "remove-module" and len(new["mods"]) > 1:
+            new["mods"].remove(rng.choice(new["mods"]))
+            done.append(kind)
+        elif kind in ("unhide", "hide") and m is not None and m["tests"]:
+            t = rng.choice(m["tests"])
+            t["vis"] = None if kind == "unhide" else "hidden"
+            done.append(kind)
+    return new, done
+
+
+def gen_reload(rng):
+    r = rng.random()
+    a = L.gen_layout(rng)
+    if r < 0.45:
+        mode = "edit"
+        b, what = edit_layout(rng, a, rng.choice([1, 1, 2, 3]))
+        steps = [a, b]
+        if rng.random() < 0.3:
+            c, w2 = edit_layout(rng, b if rng.random() < 0.6 else a, rng.choice([0, 1, 2]))     # a third load (possibly of the first state again)
+            steps.append(c)
+            what = what + ["|"] + w2
+    elif r < 0.6:
+        mode, what = "replace", ["other-project"]            # the directory now holds another project (git checkout of another branch)
+        steps = [a, L.gen_layout(rng)]
+    elif r < 0.8:
+        mode, what = "chdir", ["same-relative-path"]         # two projects, each loaded as 'suites' from its own working directory
+        b = L.gen_layout(rng)
+        if a["mods"] and b["mods"] and rng.random() < 0.8:
+            b["mods"][0]["stem"] = a["mods"][0]["stem"]      # the same module name in both
+            seen = set()
+            b["mods"] = [m for m in b["mods"] if not (m["stem"] in seen or seen.add(m["stem"]))]
+        steps = [a, b]
+    else:
+        mode = "failed-first"                                # the first import of a module raises; the file is then repaired
+        broken = copy.deepcopy(a)
+        mods = list(_all_mods(broken))
+        what = []
+        if mods:
+            rng.choice(mods)["broken"] = rng.choice(["raise", "raise", "syntax"])
+            what = ["repair"]
+        steps = [broken, a]
+        if rng.random() < 0.5:
+            b, w2 = edit_layout(rng, a, 1)
+            steps[1] = b
+            what += w2
+    via = rng.choice(["loader", "loader", "project"]) if mode != "chdir" else "relative"
+    return {"entry": "seq", "mode": mode, "via": via, "what": what, "steps": steps, "defect": None}
+
+
+def _step_case(lay):
+    return {"entry": "dir", "layout": lay, "defect": None}
+
+
+def observe_seq(case):
+    """The real loader, SEVERAL times in this one process, on the directories the steps describe — nothing of the interpreter
+    state (`sys.modules`, …) is touched between two loads (only the rank counter, as for a single load).  mode chdir: each
+    project lives in its own directory and is loaded as `load_suites_from_directory('suites')` from there; otherwise the same
+    directory is rewritten between the loads (`via` project: through `Project(dir).load_suites()`)."""
+    from lemoncheesecake.suite import loader, builder
+    from lemoncheesecake.project import Project
+    top = tempfile.mkdtemp(prefix="lccverif-c13r-")
+    old_dwb = sys.dont_write_bytecode
+    sys.dont_write_bytecode = True
+    cwd = os.getcwd()
+    saved_env = {}
+    before = set(sys.modules)
+    out = []
+    try:
+        for i, lay in enumerate(case["steps"]):
+            base = os.path.join(top, "p%d" % i) if case["mode"] == "chdir" else os.path.join(top, "proj")
+            root = os.path.join(base, "suites")
+            if os.path.lexists(root):
+                shutil.rmtree(root)
+            os.makedirs(base, exist_ok=True)
+            env = L.env_of(lay)
+            log = os.path.join(top, "import%d.log" % i)
+            env["LCCV_IMPORT_LOG"] = log
+            for k, val in env.items():
+                saved_env.setdefault(k, os.environ.get(k))
+                if val is None:
+                    os.environ.pop(k, None)
+                else:
+                    os.environ[k] = val
+            L.render(lay, root)
+            builder.Metadata._next_rank = 1
+            try:
+                if case["mode"] == "chdir":
+                    os.chdir(base)
+                    suites = loader.load_suites_from_directory("suites")
+                elif case.get("via") == "project":
+                    suites = Project(base).load_suites()
+                else:
+                    suites = loader.load_suites_from_directory(root)
+                obs = {"ok": [_dump_suite(s) for s in suites], "flat": _flat(suites)}
+            except Exception as e:
+                obs = {"error": _classify(e)}
+            finally:
+                os.chdir(cwd)
+            try:
+                with open(log) as fh:
+                    obs["imported_drops"] = sorted({os.path.relpath(l.strip(), base).replace(os.sep, "/") for l in fh if l.strip()})
+            except OSError:
+                obs["imported_drops"] = []
+            out.append(obs)
+        return {"steps": out}
+    finally:
+        os.chdir(cwd)
+        for k, val in saved_env.items():
+            if val is None:
+                os.environ.pop(k, None)
+            else:
+                os.environ[k] = val
+        sys.dont_write_bytecode = old_dwb
+        for k in [k for k in sys.modules if k not in before and isinstance(k, str) and (k.startswith(top) or k.startswith("suites" + os.sep))]:
+            del sys.modules[k]
+        builder._objects_with_metadata.clear()
+        shutil.rmtree(top, ignore_errors=True)
+
+
+def _lay(mods, dirs=()):
+    return {"name": "suites", "noise": False, "dirs": list(dirs), "mods": list(mods)}
+
+
+_V1 = _lay([_m("alpha", tests=[_t("first")])])
+_V2 = _lay([_m("alpha", tests=[_t("first", pos=0), _t("second", pos=1, tags=["new"])])])
+_OTHER = _lay([_m("alpha", tests=[_t("other", pos=0)], classes=[_c("inner", [_t("deep")], pos=1)])])
+# minimised failing inputs of the seeded change (an importer that returns what `sys.modules` holds under the path string):
+# a test added between two loads (directly and through Project.load_suites), a test removed, two projects loaded as 'suites'
+# from their own working directories, a module whose first import raised and was then repaired, three loads A B A
+RELOADS = [
+    {"entry": "seq", "mode": "edit", "via": "loader", "what": ["add-test"], "steps": [_V1, _V2], "defect": None},
+    {"entry": "seq", "mode": "edit", "via": "project", "what": ["remove-test"], "steps": [_V2, _V1], "defect": None},
+    {"entry": "seq", "mode": "chdir", "via": "relative", "what": ["same-relative-path"], "steps": [_V1, _OTHER], "defect": None},
+    {"entry": "seq", "mode": "failed-first", "via": "loader", "what": ["repair"],
+     "steps": [_lay([_m("alpha", tests=[_t("first")], broken="raise")]), _V1], "defect": None},
+    {"entry": "seq", "mode": "failed-first", "via": "project", "what": ["repair"],
+     "steps": [_lay([_m("alpha", tests=[_t("first")], broken="syntax")]), _V2], "defect": None},
+    {"entry": "seq", "mode": "edit", "via": "loader", "what": ["add-test", "|", "remove-test"], "steps": [_V1, _V2, _V1], "defect": None},
+]
+
+
+class Reload(Load):
+    """Several loads in one process: each one judged by the single-load oracle against what its OWN files declare."""
+    name = "C13.reload"
+    quick_cases = 420
+    thorough_cases = 5000
+    quick_seconds = 16
+    thorough_seconds = 160
+    chunk = 30
+    corpus = RELOADS
+
+    def gen(self, rng, i):
+        return gen_reload(rng)
+
+    def impl(self, case):
+        return observe_seq(case)
+
+    def oracle(self, case, obs):
+        fails, first_ok = [], True
+        for i, (lay, o) in enumerate(zip(case["steps"], obs["steps"])):
+            fs = self.judge(declared(_step_case(lay)), o)
+            fs = [f for f in fs if f.signature != "C13/dunder-named-class-member-not-discovered" or i == 0]
+            if i == 0:
+                first_ok = not [f for f in fs if f.signature != "C13/dunder-named-class-member-not-discovered"]
+            elif fs and first_ok:
+                # the first load of the process is as declared, a later one is not: it does not reflect the files as they are now
+                prev = [tuple(e["path"]) for e in obs["steps"][i - 1].get("flat", [])]
+                cur = [tuple(e["path"]) for e in o.get("flat", [])]
+                stale = " — it is the tree of the PREVIOUS load" if "ok" in o and cur == prev else ""
+                fails.append(C.Failure("C13/later-load-does-not-reflect-current-files",
+                                       f"load #{i + 1} of the process ({case['mode']}, {'+'.join(case['what']) or 'no edit'}) is not what the "
+                                       f"files declare now{stale}: {fs[0].signature}: {fs[0].message}"))
+            for f in fs:
+                fails.append(C.Failure(f.signature, f"load #{i + 1}: {f.message}", getattr(f, "details", None)))
+        return fails[:3]
+
+    def request(self, case, obs):
+        steps = []
+        for lay in case["steps"]:
+            steps.append({"root": "suites", "dir": _j_rawdir(L.with_ranks(lay, "dir", None))})
+        return {"entry": "seq", "steps": steps}
+
+    def compare(self, case, obs, ans):
+        if "error" in ans:
+            return "model/driver error: " + str(ans["error"])
+        if len(ans["steps"]) != len(obs["steps"]):
+            return "model answers %d loads, %d were made" % (len(ans["steps"]), len(obs["steps"]))
+        for i, (lay, o, a) in enumerate(zip(case["steps"], obs["steps"], ans["steps"])):
+            d = Load.compare(self, _step_case(lay), o, a)
+            if d:
+                return f"load #{i + 1}: {d}"
+        return None
+
+    def nontrivial(self, case, obs):
+        decs = [declared(_step_case(lay)) for lay in case["steps"]]
+        ents = [[(tuple(e["path"]), e["desc"], tuple(e["tags"]), json.dumps(e["params"])) for e in d["entries"]] for d in decs]
+        return any(ents[i] != ents[i - 1] for i in range(1, len(ents))) and any("ok" in o for o in obs["steps"][1:])
+
+    def features(self, case, obs):
+        f = ["mode=" + case["mode"], "via=" + case["via"], "loads=%d" % len(case["steps"])]
+        f += ["edit=" + w for w in case["what"] if w != "|"]
+        f.append("outcomes=" + ",".join("ok" if "ok" in o else "error:" + o["error"]["kind"] for o in obs["steps"]))
+        return sorted(set(f))
+
+    def shrink(self, case):
+        for i, lay in enumerate(case["steps"]):
+            for smaller in _shrink_lists(lay):
+                steps = list(case["steps"])
+                steps[i] = smaller
+                yield dict(case, steps=steps)
+
+
 def streams(ctx):
-    return [Load(), Malformed()]
+    return [Load(), Malformed(), Reload()]
 
 
 # ---------------------------------------------------------------------------------------------
@@ -1117,6 +1422,59 @@ def scan_tables():
         return rows, stems
     finally:
         shutil.rmtree(top, ignore_errors=True)
+
+# header strings of the CSV-like form of @lcc.parametrized the real `_Parametrized.parameters_source` is asked about:
+# spellings of one / two / three fields with white space before / after each field, and every character below 0x100 plus the
+# Unicode spaces and their look-alikes as padding in all four positions
+HEADER_FIELDS = [["i"], ["i", "j"], ["host", "port"], ["a", "b", "c"], ["first name", "x"], ["value"], ["é", "j"]]
+HEADER_PADS = ["", " ", "  ", "      ", "\t", " \t ", "\n", "\r\n", "\x0c", "\xa0", "\u3000", "\u200b", "_", "\x00"]
+HEADER_PAD_CHARS = list(range(0x100)) + [0x1680, 0x180e] + list(range(0x1ff8, 0x2070)) + [0x2420, 0x3000, 0x3001, 0x303f, 0xfeff,
+                                                                                       0xe0020, 0x1d7d8]
+HEADER_LITERALS = ["", ",", " , ", "i,", ",j", "i,,j", " ", "i;j", "i ,j", "i, j", "i , j", " i,j ", "host      , port", " value ",
+                   "\ti\t,\tj\t", "i\n,j\n", "a b , c d", "i ,\tj, k "]
+
+
+def header_spellings():
+    out = list(HEADER_LITERALS)
+    for fields in HEADER_FIELDS:
+        for a in HEADER_PADS:
+            for b in HEADER_PADS[:8]:
+                out.append(",".join(a + f + b for f in fields))
+    for c in HEADER_PAD_CHARS:
+        ch = chr(c)
+        out.append(ch + "k" + ch + "," + ch + "j" + ch)
+    seen, uniq = set(), []
+    for h in out:
+        if h not in seen:
+            seen.add(h)
+            uniq.append(h)
+    return uniq
+
+
+def header_tables():
+    """Execute the REAL `_Parametrized(source, naming).parameters_source` (what `_load_parametrized_tests` iterates over) on a
+    CSV-like source whose first item is each header spelling and whose only row is 0, 1, 2, …: the keys of the dict it yields
+    are the parameter names the loader gives the test.  A dict cannot show a name that occurs twice; such headers are left out
+    (recorded: how many)."""
+    from lemoncheesecake.suite import builder
+    rows, skipped = [], 0
+    for h in header_spellings():
+        n = h.count(",") + 1
+        got = list(builder._Parametrized([h, tuple(range(n + 3))], None).parameters_source)
+        assert len(got) == 1 and type(got[0]) is dict
+        names = list(got[0].keys())
+        if len(names) != n or list(got[0].values()) != list(range(n)):
+            skipped += 1
+            continue
+        rows.append((_lean_chars(h), "[" + ", ".join(_lean_chars(x) for x in names) + "]", "header %r -> names %r" % (h, names)))
+    assert skipped <= 12, skipped
+    return rows
+
+
+def _thirds(rows):
+    n = (len(rows) + 2) // 3
+    return [rows[:n], rows[n:2 * n], rows[2 * n:]]
+
 
 # every generated value shape, plus a few more of the same shapes
 TABLE_PVS = L.FALSY_PVS + L.TRUTHY_PVS + [L._pv("int", v=-7), L._pv("int", v=10 ** 12), L._pv("float", k="fin", milli=1),
@@ -1265,4 +1623,8 @@ def tables(ctx):
         C.Table("testMethodCondTable", "List (Vis × (Bool × Nat))", rows_meth, imports),
         C.Table("classCondTable", "List (Vis × (Bool × Nat × Nat))", rows_cls, imports),
         C.Table("moduleCondTable", "List (Vis × (Bool × Bool × Bool))", rows_mod, imports),
+    ] + [
+        # (a list literal of more than ~1000 rows exceeds Lean's recursion depth: three parts)
+        C.Table("headerParseTable%d" % (k + 1), "List (List Char × List (List Char))", part, imports)
+        for k, part in enumerate(_thirds(header_tables()))
     ]
